@@ -86,6 +86,8 @@ impl Recorder {
     /// (row, col) of the emulated cursor; col == width means the pending-wrap column
     pub fn cursor(&self) -> (u16, u16) { let st = self.st.lock().unwrap(); st.parser.as_ref().map_or((0, 0), |p| p.screen().cursor_position()) }
     pub fn rows(&self) -> Vec<String> { let st = self.st.lock().unwrap(); if st.parser.is_some() { snapshot(&st, self.w).0 } else { vec![] } }
+    /// bytes a real terminal device received (stream C01P): straight into the emulator
+    pub fn feed_raw(&self, bytes: &[u8]) { let mut st = self.st.lock().unwrap(); if st.parser.is_some() { feed(&mut st, bytes, self.w); } }
 }
 
 /// Feed bytes to the emulator one character (or escape sequence) at a time, saving every row that
